@@ -8,7 +8,7 @@ import (
 
 var Lits = []string{"a", "b", "ab", "foo", "bar", "foobar", "x", "q", "fo", "ba"}
 var MidLits = []string{"a", "b", "ab", "id:", "foo", "x"}
-var Hosts = []string{"a.com", "b.com", "{h0}.com", "a.{h1}", "x.a.com", "{h0}.a.com", "a.co", "a{h0}.com", "{h0}.{h1}", "a.com.org", "ab.com", "x.{h1}.com", "{h0}.co", "{h0}.com.org", "a{h0}.co", "x.{h1}.co"}
+var Hosts = []string{"a.com", "b.com", "{h0}.com", "a.{h1}", "x.a.com", "{h0}.a.com", "a.co", "a{h0}.com", "{h0}.{h1}", "a.com.org", "ab.com", "x.{h1}.com", "{h0}.co", "{h0}.com.org", "a{h0}.co", "x.{h1}.co", "a.b.c", "a.b.d.e", "a.b.d.{h3}", "a.{h1}.c", "a.b", "a.{h1}.d.e", "{h0}.b.com", "{h0}.{h1}.com", "api-eu.com", "api.com"}
 var Methods = []string{"GET", "POST", "PATCH", "FOO"}
 
 // Profile tunes the generator.
